@@ -274,8 +274,14 @@ func main() {
 	wg.Wait()
 	// concretise models of failed obligations
 	if !*noReplay {
+		nconc := 0
 		for _, o := range e.obls {
 			if o.Res.Status != "unsat" {
+				nconc++
+				if nconc > 4 {
+					o.ReplayNote = "model not concretised (more than 4 failed obligations in this unit)"
+					continue
+				}
 				func() {
 					defer func() {
 						if r := recover(); r != nil {
@@ -286,7 +292,7 @@ func main() {
 							panic(r)
 						}
 					}()
-					e.concretise(o, tmo)
+					e.concretise(o, 8*time.Second)
 				}()
 			}
 		}
@@ -378,6 +384,9 @@ func dischargeWith(as []*Term, script string, tmo time.Duration, solvers []strin
 	hasQ := false
 	var noQ []*Term
 	for _, a := range as {
+		if len(qfNames(a)) > 0 {
+			hasQ = true
+		}
 		if a.hasQ && a != as[len(as)-1] {
 			hasQ = true
 			continue
@@ -387,7 +396,7 @@ func dischargeWith(as []*Term, script string, tmo time.Duration, solvers []strin
 	tasks := []solverTask{{solver: solvers[0], script: script}}
 	if len(solvers) > 1 {
 		if hasQ {
-			tasks = append(tasks, solverTask{solver: solvers[1], script: Script(noQ, false), tag: "+no-quantifiers", onlyUnsat: true})
+			tasks = append(tasks, solverTask{solver: solvers[1], script: ScriptNoQ(noQ), tag: "+no-quantifiers", onlyUnsat: true})
 		} else {
 			tasks = append(tasks, solverTask{solver: solvers[1], script: script})
 		}
